@@ -110,13 +110,19 @@ class DistributeMapper(IdentityMapper):
                     ])
 
     def map_power(self, expr):
-        from pymbolic.primitives import Sum
+        from pymbolic.primitives import Power, Sum
 
         newbase = self.rec(expr.base)
         if isinstance(newbase, Product):
             return self.rec(pymbolic.flattened_product([
                 child**expr.exponent for child in newbase.children
                 ]))
+
+        if (isinstance(newbase, Power)
+                and isinstance(newbase.exponent, int)
+                and isinstance(expr.exponent, int)):
+            # (b**m)**n == b**(m*n) for integer m, n
+            return self.rec(Power(newbase.base, newbase.exponent*expr.exponent))
 
         if isinstance(expr.exponent, int) and expr.exponent >= 0:
             if isinstance(newbase, Sum):
